@@ -9,9 +9,9 @@ for k in ('der',):      # asn1c cannot OER-encode an open type at this commit (o
                            inputs='row of the object set (symbolic), payload value (symbolic)'))
     HARNESSES.append(typed(H, 'ios_enc_%s' % k, 'typed/enc_exact.c', t, k, functions=['%s encoder of T-Ios vs reference' % k],
                            inputs='row of the object set (symbolic), payload value (symbolic)'))
-    HARNESSES.append(typed(H, 'ios_dec_%s' % k, 'typed/dec_exact.c', t, k, leak=True, functions=['%s decoder of T-Ios on the reference encoding' % k],
+    HARNESSES.append(typed(H, 'ios_dec_%s' % k, 'typed/dec_exact.c', t, k, leak=True, alloc=True, model_defines=['-DVERIF_ALLOC_ROUND'], functions=['%s decoder of T-Ios on the reference encoding' % k], maxdeepen=7000, timeout=1800,
                            inputs='row of the object set (symbolic), payload value (symbolic)'))
-HARNESSES.append(typed(H, 'ios_mismatch_ber', 'typed/ios_mismatch.c', t, 'der', leak=True, functions=['BER decoder of T-Ios, OPEN_TYPE_ber_get'],
+HARNESSES.append(typed(H, 'ios_mismatch_ber', 'typed/ios_mismatch.c', t, 'der', leak=True, maxdeepen=7000, timeout=1800, alloc=True, model_defines=['-DVERIF_ALLOC_ROUND'], functions=['BER decoder of T-Ios, OPEN_TYPE_ber_get'],
                        inputs='identifier -300..300 (in or out of the set), payload of a type that is not the row\'s', bounds='one payload octet'))
 HARNESSES.append(typed(H, 'ios_garbage_ber', 'typed/dec_arbitrary.c', t, 'der', leak=True, defines=['-DNBYTES=6'], functions=['BER decoder of T-Ios'],
                        inputs='6 arbitrary octets', bounds='<= 6 octets'))
